@@ -154,6 +154,8 @@ def cases(seed, tier):
         for r in range(per):
             out.append({'group': 'foreign', 'monitor': mon, 'fseed': int(rng.integers(1 << 20)),
                         'index': int(rng.integers(1 << 20)), 'seed': int(rng.integers(1 << 31))})
+    # the repository's own tests (quick: tests/unit, thorough: all) as one more workload under the same probe
+    out.append({'group': 'repo-tests', 'tier': tier, 'seed': 0})
     groups = ['univariate', 'bivariate', 'gaussian', 'vine', 'optimize', 'plots', 'misc']
     reps = 3 if tier == 'quick' else 150
     for r in range(reps):
@@ -401,9 +403,25 @@ def _foreign(spec, ctx):
     ctx.distinct('foreign workloads watched', spec['monitor'])
 
 
+def _repo_tests(spec, ctx):
+    from vmon import pytest_probe
+    res = pytest_probe.run_repo_tests(spec['tier'], 'c20')
+    if res is None or not res.get('calls'):
+        ctx.note('repository tests under the snapshot probe: nothing observed (not judged)')
+        return
+    for name, changed, raised in res['argument_events']:
+        ctx.violation('args.unchanged(repository tests)', 'C20:%s-modifies-argument' % name,
+                      {'entry': name, 'arguments_changed': changed, 'raised': raised, 'driven_by': 'repository test suite'})
+    ctx.ok('args.unchanged(repository tests)', res['calls'])
+    ctx.note('repository tests under the snapshot probe: top-level calls observed', res['calls'])
+    ctx.nontriv('repo-tests|%s' % spec['tier'])
+
+
 def run_case(spec, ctx):
     if spec['group'] == 'foreign':
         return _foreign(spec, ctx)
+    if spec['group'] == 'repo-tests':
+        return _repo_tests(spec, ctx)
     rng = rng_for(spec['seed'], 'c20')
     g = Guard(ctx)
     {'univariate': _univariate, 'bivariate': _bivariate, 'gaussian': _gaussian, 'vine': _vine, 'optimize': _optimize,
